@@ -227,6 +227,24 @@ def check_c16_uris(ctx, sched):
                 violation("C16", "uri-roundtrip", "documentSymbol answered for a different document",
                           f"asked {asked!r}, symbols located in {sorted(got)!r}", op=o["op"])
                 break
+            # ... and its symbols are symbols of that document's text (a URI mapped to another
+            # file's path would list the other file's units under the asked URI)
+            text = None
+            if asked in d.docs and d.docs[asked]["lines"] is not None:
+                text = "\n".join(d.docs[asked]["lines"])
+            elif asked in d.told:
+                text = d.told[asked].decode("utf-8", "replace")
+            if text is not None:
+                import re as _re
+
+                words = {w_.lower() for w_ in _re.findall(r"[A-Za-z_]\w*", text)}
+                foreign = [sym.get("name") for sym in f["result"]
+                           if isinstance(sym.get("name"), str) and _re.fullmatch(r"[A-Za-z_]\w*", sym["name"])
+                           and sym["name"].lower() not in words]
+                if foreign:
+                    violation("C16", "uri-roundtrip", "documentSymbol lists units that are not in the asked document",
+                              f"asked {asked!r}: {foreign[:5]!r} do not occur in its text", op=o["op"])
+                    break
     seen = set()
     for o in d.out:
         uris = []
